@@ -86,3 +86,6 @@ func (s *Sixel) VerifC20State() (encoding bool, bufLen int) {
 	}
 	return false, s.buf.Len()
 }
+
+// VerifC20CellPixelSize returns what the real cellPixelSize computes from the current window size.
+func (vx *Vaxis) VerifC20CellPixelSize() (int, int) { return vx.cellPixelSize() }
